@@ -445,7 +445,7 @@ def plan (tier, seed):
     return ([dict(mode="rand", n=1500, sub=i) for i in range(12)] +
             [dict(mode="cfg", sub=0)] +
             [dict(mode="exh", shard=i, nshards=12) for i in range(3)])
-  return ([dict(mode="rand", n=60000, sub=i) for i in range(24)] +
+  return ([dict(mode="rand", n=120000, sub=i) for i in range(48)] +
           [dict(mode="cfg", sub=i) for i in range(4)] +
           [dict(mode="exh", shard=i, nshards=4) for i in range(4)])
 
